@@ -471,6 +471,16 @@ class Engine:
         self.solver.pop()
         return r != z3.unsat
 
+    def fixed_length(self, p, limit=64):
+        """the length of a symbolic string when the path condition determines it (bounded units), else None"""
+        if self.solver.check() != z3.sat:
+            return None
+        v = self.solver.model().eval(z3.Length(p.z), model_completion=True)
+        if not z3.is_int_value(v) or v.as_long() > limit:
+            return None
+        n = v.as_long()
+        return n if not self.feasible(z3.Length(p.z) != n) else None
+
     def assume(self, c):
         if isinstance(c, Sym):
             c = zterm(c, BOOL)
@@ -1545,7 +1555,10 @@ class Engine:
                 elif not self.pure and not self.feasible(z3.Length(p.z) != 1):
                     chars.append(p)       # an atom that is known to be exactly one character
                 else:
-                    raise Unsupported('iteration over a symbolic string')
+                    n = None if self.pure else self.fixed_length(p)
+                    if n is None:
+                        raise Unsupported('iteration over a symbolic string of unknown length')
+                    chars.extend(Sym(z3.SubString(p.z, i, 1), STR) for i in range(n))
             return chars
         raise Unsupported('iteration over %s' % pytype(it))
 
@@ -2692,6 +2705,11 @@ def _sf_implies(eng, node, fr):
             if not isinstance(a, bool) and not _quantified(a) and not eng.feasible(a):
                 return True
             raise
+        except PyRaise:
+            # the consequent raises (e.g. a tag that was never set): the clause is false wherever the antecedent holds
+            if isinstance(a, bool):
+                return not a
+            return concretize(Sym(z3.Not(a), BOOL))
     finally:
         eng.pure -= 1
     return concretize(Sym(z3.Implies(a, b), BOOL))
